@@ -359,7 +359,8 @@ def h_recover_listing_fails(h: H):
 
 
 def _replay_recover(ob):
-    return '''
+    fallback = ob.get("verdict") == "undecided"
+    return f"FALLBACK = {fallback!r}   # True: bounded stand-in (the known orphan scenario is then not part of the verdict)\n" + '''
 import sys, os, tempfile, shutil, json, time
 from datashard import create_table, load_table
 from datashard.data_structures import Schema
@@ -379,8 +380,21 @@ try:
     os.remove(os.path.join(p, "metadata.version-hint.text"))   # pointer lost
     t2 = load_table(p)
     rows = sorted(r["a"] for r in t2.scan())
-    if rows != [1, 2]:
+    if rows != [1, 2] and not FALLBACK:
         bad.append(("recovery surfaced a never-committed version", orphan, "rows", rows, "committed", committed))
+    # numeric (not lexicographic) maximum over >= 10 committed versions, pointer lost
+    os.remove(os.path.join(md, orphan))
+    p2 = os.path.join(root, "t2")
+    t3 = create_table(p2, schema=Schema(schema_id=1, fields=[{"id": 1, "name": "a", "type": "long", "required": False}]))
+    for i in range(12): t3.append_records([{"a": i}])
+    latest = open(os.path.join(p2, "metadata.version-hint.text")).read().strip()
+    os.remove(os.path.join(p2, "metadata.version-hint.text"))
+    mm = load_table(p2).metadata_manager
+    info = mm._current_version_info()
+    if info is None or info[1] != latest:
+        bad.append(("recovery did not return the latest committed version", info, latest))
+    if sorted(r["a"] for r in load_table(p2).scan()) != list(range(12)):
+        bad.append("rows lost after pointer loss on a 12-commit table")
 finally:
     shutil.rmtree(root, ignore_errors=True)
 print("replay recover ->", bad or "recovered the committed version")
